@@ -128,6 +128,7 @@ def run(res: Results, idx: Index, tier: str) -> None:
     rule_e(res, idx, cg, tier)
     rule_g(res, idx)
     rule_h(res, idx, facts)
+    rule_i(res, idx, facts)
     from .c03 import inherited_settings
     res.rule("R-C11f", "nested Loop / If / function scopes inherit the requested opset from an attribute that exists", floor=1)
     for site, key, status, detail, func, setting in inherited_settings(idx):
@@ -470,3 +471,47 @@ def rule_h(res: Results, idx: Index, facts: OpsetFacts) -> None:
                     else:
                         res.ok("R-C11h", site, key, f"operands of `{nm} = {op}(…)` derive from the same equation inputs as the sibling at line {plain[0][0].lineno}", fi.qualname)
     res.analysed["opset_gated_sibling_emissions"] = n
+
+
+
+# ---------------------------------------------------------------------------------------------- R-C11i
+def rule_i(res: Results, idx: Index, facts: OpsetFacts) -> None:
+    """From opset 27 Range accepts float16 / bfloat16.  A Range in such a type COUNTS in it: the limit 2051 is the float16
+    value 2052, and indices above 2**11 (2**8 for bfloat16) are not representable, so the model returns another number of
+    elements than the same request at a lower opset (INT64 / float32 Range + Cast).  Wherever a lowering switches to the native
+    narrow-float Range on `opset >= 27`, the switch must also be bounded by an extent test (an ordering comparison next to
+    the opset test, directly or through a flag it is and-ed with)."""
+    res.rule("R-C11i", "the opset-27 switch to a float16 / bfloat16 Range is bounded by the number of elements the type can count", floor=2)
+    from ..flow import defuse, names_in
+    n = 0
+    ge27 = frozenset(v for v in facts.U if v >= 27)
+    for m in idx.product_modules():
+        if "/plugins/" not in m.rel or "Range" not in m.src or "27" not in m.src:
+            continue
+        for fi in m.funcs.values():
+            if not any(isinstance(c, ast.Call) and isinstance(c.func, ast.Attribute) and c.func.attr == "Range" for c in walk_no_nested(fi.node)):
+                continue
+            du = defuse(fi.node)
+            for b in walk_no_nested(fi.node):
+                if not (isinstance(b, ast.BoolOp) and isinstance(b.op, ast.And)):
+                    continue
+                gates = [x for x in b.values if isinstance(x, ast.Compare) and facts.cond_set(x, True, fi) == ge27]
+                if not gates:
+                    continue
+                if not any("DTYPES" in src(v, 80) or "float16" in src(v, 80) for v in b.values):
+                    continue
+                n += 1
+                key = f"{m.rel}::{fi.qualname}::native-range-switch"
+                site = f"{m.rel}:{b.lineno}"
+                exprs = list(b.values)
+                for v in b.values:
+                    if isinstance(v, ast.Name):
+                        exprs += [d.value for d in du.defs.get(v.id, []) if d.value is not None]
+                bound = next((c for e in exprs for c in ast.walk(e) if isinstance(c, ast.Compare) and any(isinstance(o, (ast.LtE, ast.Lt)) for o in c.ops)
+                              and any(isinstance(x, ast.BinOp) and isinstance(x.op, ast.Pow) for x in ast.walk(c)) ), None)
+                if bound is not None:
+                    res.ok("R-C11i", site, key, f"the switch is and-ed with `{src(bound, 60)}`", fi.qualname)
+                else:
+                    res.violation("R-C11i", site, key, f"`{src(b, 80)}` switches to a Range in the narrow float type for every extent: beyond 2**11 (float16) / 2**8 (bfloat16) elements the limit and the indices are "
+                                  "not representable — iota / arange of 2051 float16 elements returns 2052 at opset 27 and 2051 at opset 23", fi.qualname)
+    res.analysed["native_range_switches"] = n
